@@ -9,7 +9,8 @@
     history, reproduces every observation — complex outputs bit for bit (after -0 |-> +0), integer
     outputs exactly.
     [spec_check]: the integer outputs are the integer convolution, computed directly
-    ([Model.conv], independent of the FFT model). *)
+    ([Model.conv], independent of the FFT model); for [OInvS] (the inverse transform handed the exactly
+    scaled spectrum of v[j] / 2^sh) the integers nearest to v[j] / 2^sh. *)
 From Coq Require Import List ZArith Bool Floats Uint63.
 From RlibV Require Import Common.Batch C04.Model.
 Import ListNotations.
@@ -80,6 +81,9 @@ Inductive op :=
 | OClone                                                     (* second object := clone of the current one *)
 | OInvX (a b : list Z) (n : Z) (res0 : list Z) (r : list Z)  (* fft a n, fft b n on the current object, product,
                                                                 fft_inv_into res0 on the SECOND object *)
+| OInvS (v : list Z) (n sh : Z) (res0 : list Z) (r : list Z) (* fft v n, every entry times 2^-sh (exact), fft_inv_into res0:
+                                                                the inverse transform of the spectrum of v[j] / 2^sh *)
+| OInvSX (v : list Z) (n sh : Z) (res0 : list Z) (r : list Z) (* the same, inverse transform on the SECOND object *)
 | OPanic.                                                    (* the call panicked *)
 Record case := mkcase { table : list (Z * Z); ops : list op }.
 
@@ -89,6 +93,16 @@ Definition dest_of (p : Z * Z) : float * float := (f_of_Z (fst p), f_of_Z (snd p
 Section Run.
 Variable tw : nat -> nat -> float * float.
 Definition m_new : cstate := new_st fops tw.
+(** the user's side of [OInvS]: [Complex::new(c.x * k, c.y * k)] with [k = 1.0 / 2^sh] *)
+Definition f_pow2_inv (sh : Z) : float := PrimFloat.div 1%float (f_of_Z (2 ^ sh)).
+Definition inv_scaled_x (s s' : cstate) (v : list Z) (n : nat) (sh : Z) (res : list Z) : (cstate * cstate) * list Z :=
+  let '(s, fv) := fft fops tw s v n in
+  let k := f_pow2_inv sh in
+  let '(s', r) := fft_inv_into fops tw s' (map (fun c => cscale fops c k) fv) res in
+  ((s, s'), r).
+Definition inv_scaled (s : cstate) (v : list Z) (n : nat) (sh : Z) (res : list Z) : cstate * list Z :=
+  let '(s, fv) := fft fops tw s v n in
+  fft_inv_into fops tw s (map (fun c => cscale fops c (f_pow2_inv sh)) fv) res.
 (** model of one call: new states of the two objects (current, second), and whether the observation is reproduced *)
 Definition step_model (ss : cstate * cstate) (o : op) : (cstate * cstate) * bool :=
   let '(s, t) := ss in
@@ -106,6 +120,8 @@ Definition step_model (ss : cstate * cstate) (o : op) : (cstate * cstate) * bool
   | OSwap => ((t, s), true)
   | OClone => ((s, s), true)
   | OInvX a b n res0 r => let '(ss', x) := inv_prod_x fops tw s t a b (Z.to_nat n) res0 in (ss', leqb Z.eqb x r)
+  | OInvS v n sh res0 r => let '(s', x) := inv_scaled s v (Z.to_nat n) sh res0 in ((s', t), leqb Z.eqb x r)
+  | OInvSX v n sh res0 r => let '(ss', x) := inv_scaled_x s t v (Z.to_nat n) sh res0 in (ss', leqb Z.eqb x r)
   | OPanic => (ss, false)
   end.
 Fixpoint run_model (ss : cstate * cstate) (l : list op) : bool :=
@@ -122,6 +138,28 @@ Definition model_check (c : case) : bool :=
 (** ** the specification on the integer observations *)
 Definition zip_add_Z (res ys : list Z) : list Z := zip_acc Z.add res ys.
 Definition pad (l : list Z) (n : nat) : list Z := l ++ repeat 0 (n - length l).
+(** the integer nearest to x / 2^sh; [None] when x / 2^sh is within 3/64 of a tie (never generated: the property
+    promises recovery of the integers while the float error stays below 1/2, it says nothing about exact ties) *)
+Definition nearest_shift (sh x : Z) : option Z :=
+  let q := 2 ^ sh in
+  let m := x mod q in
+  if 64 * m <=? 29 * q then Some (x / q)
+  else if 35 * q <=? 64 * m then Some (x / q + 1)
+  else None.
+Fixpoint nearest_all (sh : Z) (v : list Z) : option (list Z) :=
+  match v with
+  | [] => Some []
+  | x :: t => match nearest_shift sh x, nearest_all sh t with Some y, Some r => Some (y :: r) | _, _ => None end
+  end.
+(** the inverse transform of the spectrum of the real sequence v[j] / 2^sh ADDS the nearest integers to the destination
+    (for sh = 0 this is the ordinary round trip) *)
+Definition spec_scaled (v : list Z) (n sh : Z) (res0 r : list Z) : bool :=
+  if (Z.of_nat (length v) <=? n) && (0 <? n) && (0 <=? sh)
+  then match nearest_all sh v with
+       | Some w => leqb Z.eqb r (zip_add_Z res0 (pad w (Z.to_nat n)))
+       | None => true
+       end
+  else true.
 Definition spec_op (o : op) : bool :=
   match o with
   | OMul a b r => leqb Z.eqb r (conv a b)
@@ -136,6 +174,8 @@ Definition spec_op (o : op) : bool :=
       if (Z.of_nat (length a + length b) - 1 <=? n) && negb (length a =? 0)%nat && negb (length b =? 0)%nat
       then leqb Z.eqb r (zip_add_Z res0 (pad (conv a b) (Z.to_nat n)))
       else true
+  | OInvS v n sh res0 r => spec_scaled v n sh res0 r
+  | OInvSX v n sh res0 r => spec_scaled v n sh res0 r
   | OFft v n r => (length r =? fft_size (length v) (Z.to_nat n))%nat
   | OFftInto v n res0 r plain =>
       (* additive contract, in binary64: destination + fft(v, n), elementwise over the zip *)
@@ -167,6 +207,8 @@ Fixpoint explain_from (tw : nat -> nat -> float * float) (ss : cstate * cstate) 
         | OSwap => ((t, s), SNone)
         | OClone => ((s, s), SNone)
         | OInvX a b n res0 _ => let '(ss', x) := inv_prod_x fops tw s t a b (Z.to_nat n) res0 in (ss', SInts x)
+        | OInvS v n sh res0 _ => let '(s', x) := inv_scaled tw s v (Z.to_nat n) sh res0 in ((s', t), SInts x)
+        | OInvSX v n sh res0 _ => let '(ss', x) := inv_scaled_x tw s t v (Z.to_nat n) sh res0 in (ss', SInts x)
         | OPanic => (ss, SNone)
         end in
       x :: explain_from tw ss' l'
